@@ -238,6 +238,62 @@ pub fn run(ctx: &Ctx) -> i32 {
                 ev.violate("lookup-allocates", format!("50000 point lookups on binary keys performed {} allocations (peak {} bytes) on an FST of {} keys", r2.allocs, r2.peak, keys.len()), J::U(n));
             }
         }
+        // opening version-1 and version-2 files over borrowed bytes (reference-encoded), plus lookups
+        if n <= 100_000 {
+            let mut r = Rng::new(ctx.seed, 0x01d + n);
+            let keys = crate::gen::random_keys(&mut r, 3000, b"abcdefghijklmnopqrstuvwxyz0123456789", 6);
+            let kv = crate::gen::assign(keys, 1, &mut r);
+            for ver in 1..=2u64 {
+                let old = crate::refenc::encode(&kv, ver, 0, 1, &mut r);
+                let (r3, h) = measured(|| {
+                    let f = Fst::new(&old[..]).unwrap();
+                    let m = Map::new(&old[..]).unwrap();
+                    let mut h = f.len() as u64;
+                    for (k, _) in kv.iter().step_by(7) {
+                        if f.get(k).is_some() && m.contains_key(k) {
+                            h += 1;
+                        }
+                    }
+                    h
+                });
+                ev.eval(Some(crate::rng::fnv_u64(0x01d + ver, n)));
+                ev.count("zero-alloc-sections");
+                table.push(J::obj(vec![("op", J::s(format!("Fst::new + Map::new over a borrowed version-{} file + lookups", ver))), ("n_keys", J::U(kv.len() as u64)), ("items", J::U(h)), ("peak_live_bytes", J::U(r3.peak)), ("allocations", J::U(r3.allocs))]));
+                if r3.allocs != 0 {
+                    ev.violate("lookup-allocates", format!("opening a version-{} file over borrowed bytes (+ lookups) performed {} allocations", ver, r3.allocs), J::U(ver));
+                }
+            }
+        }
+        // many bounded scans on one thread: nothing may stay behind (a traversal owns its buffers only while it lives)
+        {
+            let scans = |count: usize| {
+                let mut rr = Rng::new(ctx.seed, 0x5ca9);
+                let sec = allocmeter::start();
+                let mut items = 0u64;
+                for i in 0..count {
+                    let k = &probes[rr.usize(probes.len())];
+                    let mut s = match i % 3 {
+                        0 => fa.range().ge(k).le(k).into_stream(),
+                        1 => fa.range().lt(k).into_stream(),
+                        _ => fa.range().gt(k).le(&hi).into_stream(),
+                    };
+                    for _ in 0..3 {
+                        if s.next().is_some() {
+                            items += 1;
+                        }
+                    }
+                }
+                (sec.stop(), items)
+            };
+            let (few, _) = scans(500);
+            let (many, items) = scans(20_000);
+            ev.eval(Some(crate::rng::fnv_u64(0x5ca9, n)));
+            ev.count("many-scans-sections");
+            table.push(J::obj(vec![("op", J::s("20000 bounded range scans (3 items each)")), ("n_keys", J::U(n)), ("items", J::U(items)), ("peak_live_bytes", J::U(many.peak)), ("net_live_bytes_after", J::I(many.net)), ("net_after_500_scans", J::I(few.net))]));
+            if many.net > few.net + 4096 {
+                ev.violate("retained-after-traversals", format!("{} bytes stay live after 20000 bounded range scans (after 500 scans: {}): traversals leave memory behind", many.net, few.net), J::U(n));
+            }
+        }
         let mm = unsafe { memmap2::Mmap::map(&fh).unwrap() };
         let (r, hits2) = measured(|| {
             let f = Fst::new(mm).unwrap();
@@ -291,9 +347,9 @@ pub fn run(ctx: &Ctx) -> i32 {
         ev,
         Spec {
             level: "exploration",
-            rule: "one evaluation = one complete traversal (or lookup section) of an FST with N 10-byte keys under the counting global allocator (single-threaded): full stream, range over 90%, range/search with a 70-byte lower bound, search(Subsequence), search(dfa) with lower bound, search_with_state, Map stream/keys/values, and union/intersection/difference/symmetric_difference over k in {2,3,5,8} streams (FSTs and range streams); peak live heap must stay under the generous constant 256 KiB + k*64 KiB, must not exceed the N=10^4 value by more than 25% + 256 B at N=10^5, 10^6 (thorough 10^7), and the NUMBER of allocations must not grow with N (<= +4); Fst::new over &[u8], Map::new, Fst::new over a memory map and 10^5 get/contains_key probes (hits and misses; decimal keys and random binary keys over all 256 byte values) must perform exactly 0 allocations; non-trivial = every measurement; distinct = (operation, N)",
+            rule: "one evaluation = one complete traversal (or lookup section) of an FST with N 10-byte keys under the counting global allocator (single-threaded): full stream, range over 90%, range/search with a 70-byte lower bound, search(Subsequence), search(dfa) with lower bound, search_with_state, Map stream/keys/values, and union/intersection/difference/symmetric_difference over k in {2,3,5,8} streams (FSTs and range streams); peak live heap must stay under the generous constant 256 KiB + k*64 KiB, must not exceed the N=10^4 value by more than 25% + 256 B at N=10^5, 10^6 (thorough 10^7), and the NUMBER of allocations must not grow with N (<= +4); Fst::new over &[u8], Map::new, Fst::new over a memory map and 10^5 get/contains_key probes (hits and misses; decimal keys and random binary keys over all 256 byte values) must perform exactly 0 allocations, as must opening version-1 and version-2 files over borrowed bytes; 20000 bounded range scans on one thread must leave no more live heap behind than 500 do; non-trivial = every measurement; distinct = (operation, N)",
             assumptions: vec!["the restated, decidable claim is bounded scales, not 'for all N'".into(), "constants are fixed a priori from the code's initial capacities with generous slack, not fitted".into()],
-            floors: vec![("measurements", 60), ("scale-pairs-compared", 40), ("zero-alloc-sections", 9)],
+            floors: vec![("measurements", 60), ("scale-pairs-compared", 40), ("zero-alloc-sections", 12), ("many-scans-sections", 3)],
             exhaustive: Some(false),
         },
     )
